@@ -1116,4 +1116,25 @@ SEEDS = [
     dict(id='HM16-bititer-stops-early', props=['C15', 'C03'], file='src/seg/heap.rs', old="""        if self.value == 0 {
             return None;""", new="""        if self.value <= 1 {
             return None;""", note='the root place is never visited'),
+
+    # ---- clause probes for the clauses of DESIGN 10.18 ----
+    dict(id='SC1-repair-reads-sentinel-colour', props=['C02'], file='src/map/tree.rs', old="""    fn fix_red_black_properties_after_delete(&mut self, n_index: u32) {
+        // Case 1: Examined node is root, end of recursion""", new="""    fn fix_red_black_properties_after_delete(&mut self, n_index: u32) {
+        if self.node(n_index).color == Color::Red {
+            self.node_mut(n_index).color = Color::Black;
+            return;
+        }
+        // Case 1: Examined node is root, end of recursion""", note='the red sentinel standing for a removed black leaf absorbs the deficit'),
+    dict(id='SC2-colour-of-the-entry-not-the-spliced-node', props=['C02'], file='src/map/tree.rs', old="""            nd_color = successor.color;
+""", new="""""", note='the colour that decides the repair is the deleted entry\'s, not its in-order neighbour\'s'),
+    dict(id='MC1-end-bucket-from-width', props=['C03', 'C15'], file='src/seg/layout.rs', old="""    pub(super) fn insert_mask(&self, min: i64, max: i64) -> u64 {
+        let start = self.index(min);
+        let end = self.index(max);""", new="""    pub(super) fn insert_mask(&self, min: i64, max: i64) -> u64 {
+        let start = self.index(min);
+        let end = start + ((max - min) >> self.scale) as u32;""", note='the end bucket is one short when the remainders carry'),
+    dict(id='MC2-visit-mask-bounds-swapped', props=['C03', 'C15'], file='src/seg/layout.rs', old="""    pub(super) fn intersect_mask(&self, min: i64, max: i64) -> u64 {
+        let start = self.index(min);
+        let end = self.index(max);""", new="""    pub(super) fn intersect_mask(&self, min: i64, max: i64) -> u64 {
+        let start = self.index(max);
+        let end = self.index(min);""", note='the visit mask is built from (max, min)'),
 ]
